@@ -195,7 +195,7 @@ def main():
         run(chk, 1200)
     else:
         run(chk, 120)
-        if chk.broken() and not chk.spec_failures:
+        if (chk.broken() or chk.anchor_changed) and not chk.spec_failures:
             run(chk, 600)
     chk.finish()
 
